@@ -204,6 +204,25 @@ def run(pid, tier, spec, scratch, seed, t0):
             rep["_solver"] = solver
             reports.append(rep)
 
+    # differential self-check of the engine: the same harness with the pre-filters and the query cache
+    # switched off must explore exactly the same paths
+    diff_cases = 0
+    for d in (spec.get("differential") or {}).get(tier, []):
+        u = unit_for(d)
+        outs = []
+        for env in (None, {"GOSX_NOIMPLIED": "1", "GOSX_NOCACHE": "1"}):
+            oj = os.path.join(scratch, "diff_%d.json" % len(outs))
+            u.gosx(d["harnesses"], d.get("solver", "z3-new"), workers, [], oj, 3600, env=env)
+            outs.append(json.load(open(oj)) if os.path.exists(oj) else None)
+        if outs[0] is None or outs[1] is None:
+            inconclusive.append("differential run produced no report")
+        else:
+            for a, b in zip(outs[0], outs[1]):
+                diff_cases += 1
+                if (a.get("Paths"), a.get("Completed"), len(a.get("Violations") or [])) != (b.get("Paths"), b.get("Completed"), len(b.get("Violations") or [])):
+                    inconclusive.append("engine self-check: %s explores %s paths with pre-filters and %s without" % (a["Harness"], a.get("Paths"), b.get("Paths")))
+    conf_cases += diff_cases
+
     # vacuity: every harness must complete at least one path through its final cover
     for rep in reports:
         h = rep["Harness"]
